@@ -1,8 +1,9 @@
 /-
 C16 — ClientIDs come only from a well-formed DoH path or server-name label.
-Property theorems only (helper lemmas live in AGH/Lemmas).
+Property theorems only (helper lemmas live in AGH/Lemmas/ClientID.lean).
+All theorems quantify over every byte string / request context.
 -/
-import AGH.Spec.ClientID
+import AGH.Lemmas.ClientID
 namespace AGH.C16
 open AGH AGH.Bytes
 
@@ -10,5 +11,242 @@ open AGH AGH.Bytes
 theorem C16_plain_none (c : Ctx) (h : c.proto = .udp ∨ c.proto = .tcp ∨ c.proto = .dnscrypt) :
     clientIDFromCtx c = .ok [] := by
   rcases h with h | h | h <;> simp [clientIDFromCtx, h]
+
+/-- A ClientID taken from a server name is the lower-cased valid label `l` of
+`l.<configured name>`: immediate sub-domain only (no sub-sub-domain, sibling or
+suffix look-alike). -/
+theorem C16_sni_shape (host cli : Bytes) (strict : Bool) (id : Bytes)
+    (hr : clientIDFromServerName host cli strict = .ok id) (hne : id ≠ []) :
+    ∃ l, validLabel l = true ∧ dot ∉ l ∧ cli = l ++ dot :: host ∧ id = lower l := by
+  unfold clientIDFromServerName at hr
+  split at hr
+  · cases hr; exact absurd rfl hne
+  · split at hr
+    · split at hr
+      · cases hr; exact absurd rfl hne
+      · cases hr
+    · next himm =>
+      simp at himm
+      simp only at hr
+      split at hr
+      · next hv =>
+        cases hr
+        unfold isImmediateSubdomain at himm
+        simp only [Bool.and_eq_true, beq_iff_eq] at himm
+        obtain ⟨hsub, hcount⟩ := himm
+        obtain ⟨hsplit, _⟩ := isSubdomain_split cli host hsub
+        refine ⟨_, hv, ?_, hsplit, rfl⟩
+        -- the dots: count cli = count l + 1 + count host, so count l = 0
+        intro hmem
+        have hc := congrArg (List.count dot) hsplit
+        rw [List.count_append, List.count_cons_self] at hc
+        have : 0 < List.count dot (List.take (cli.length - host.length - 1) cli) :=
+          List.count_pos_iff.mpr hmem
+        omega
+      · cases hr
+
+/-- A candidate label that is not a valid host-name label makes the request
+fail; it is never attributed to nobody or to somebody else. -/
+theorem C16_sni_invalid_fails (host cli : Bytes) (strict : Bool)
+    (hne : host ≠ cli) (himm : isImmediateSubdomain cli host = true)
+    (hbad : validLabel (cli.take (cli.length - host.length - 1)) = false) :
+    clientIDFromServerName host cli strict = .error .badLabel := by
+  unfold clientIDFromServerName
+  simp [hne, himm, hbad]
+
+/-- With strict server-name checking, a name that is neither the configured
+one nor its immediate sub-domain is rejected. -/
+theorem C16_strict_rejects (host cli : Bytes)
+    (hne : host ≠ cli) (himm : isImmediateSubdomain cli host = false) :
+    clientIDFromServerName host cli true = .error .sniMismatch := by
+  unfold clientIDFromServerName
+  simp [hne, himm]
+
+/-- A ClientID taken from a DoH path is the lower-cased valid label `l` of a
+path that cleans to `/dns-query/l` (`dns-query/l` for a relative path, which
+net/http never produces).  Extra segments never yield an id. -/
+theorem C16_path_shape (p id : Bytes) (hr : clientIDFromPath p = .ok id) (hne : id ≠ []) :
+    ∃ l, validLabel l = true ∧ slash ∉ l ∧
+      (pathClean p = slash :: dnsQuery ++ slash :: l ∨ pathClean p = dnsQuery ++ slash :: l) ∧
+      id = lower l := by
+  have hjoin := joinWith_splitOn slash (pathClean p)
+  have hnosep := splitOn_no_sep slash (pathClean p)
+  unfold clientIDFromPath at hr
+  simp only at hr
+  -- case analysis on the split of the cleaned path
+  cases hs : splitOn slash (pathClean p) with
+  | nil => exact absurd hs (splitOn_ne_nil _ _)
+  | cons a rest =>
+    rw [hs] at hr hjoin hnosep
+    cases a with
+    | nil =>
+      -- rooted: parts = rest
+      simp only at hr
+      cases rest with
+      | nil => simp at hr
+      | cons first rest2 =>
+        simp only at hr
+        split at hr
+        · cases hr
+        · next hfirst =>
+          simp only [ne_eq, Decidable.not_not] at hfirst
+          cases rest2 with
+          | nil => simp at hr; exact absurd hr hne
+          | cons l rest3 =>
+            cases rest3 with
+            | nil =>
+              simp only at hr
+              split at hr
+              · next hv =>
+                cases hr
+                refine ⟨l, hv, hnosep l (by simp), Or.inl ?_, rfl⟩
+                rw [← hjoin, hfirst]; simp [joinWith]
+              · cases hr
+            | cons _ _ => simp at hr
+    | cons b bs =>
+      simp only at hr
+      split at hr
+      · cases hr
+      · next hfirst =>
+        simp only [ne_eq, Decidable.not_not] at hfirst
+        cases rest with
+        | nil => simp at hr; exact absurd hr hne
+        | cons l rest3 =>
+          cases rest3 with
+          | nil =>
+            simp only at hr
+            split at hr
+            · next hv =>
+              cases hr
+              refine ⟨l, hv, hnosep l (by simp), Or.inr ?_, rfl⟩
+              rw [← hjoin, hfirst]; simp [joinWith]
+            · cases hr
+          | cons _ _ => simp at hr
+
+/-- What the whole extraction returns, when it returns an id: the lower-cased
+valid label of `/dns-query/<l>` (DoH only) or of `<l>.<configured name>`
+(DoH, DoT, DoQ, configured name non-empty). -/
+theorem C16_ctx_shape (c : Ctx) (id : Bytes) (hr : clientIDFromCtx c = .ok id) (hne : id ≠ []) :
+    (c.proto = .https ∧ ∃ p l, c.path = some p ∧ validLabel l = true ∧ slash ∉ l ∧
+        (pathClean p = slash :: dnsQuery ++ slash :: l ∨ pathClean p = dnsQuery ++ slash :: l) ∧
+        id = lower l)
+    ∨ ((c.proto = .https ∨ c.proto = .tls ∨ c.proto = .quic) ∧ c.hostSrvName ≠ [] ∧
+        ∃ cli l, clientServerName c = .ok cli ∧ validLabel l = true ∧ dot ∉ l ∧
+          cli = l ++ dot :: c.hostSrvName ∧ id = lower l) := by
+  have sni : ∀ (hp : c.proto = .https ∨ c.proto = .tls ∨ c.proto = .quic),
+      fromSNI c = .ok id →
+      ((c.proto = .https ∨ c.proto = .tls ∨ c.proto = .quic) ∧ c.hostSrvName ≠ [] ∧
+        ∃ cli l, clientServerName c = .ok cli ∧ validLabel l = true ∧ dot ∉ l ∧
+          cli = l ++ dot :: c.hostSrvName ∧ id = lower l) := by
+    intro hp h
+    unfold fromSNI at h
+    split at h
+    · cases h; exact absurd rfl hne
+    · next hh =>
+      split at h
+      · cases h
+      · next cli hcli =>
+        obtain ⟨l, hv, hd, hs, hid⟩ := C16_sni_shape _ _ _ _ h hne
+        exact ⟨hp, hh, cli, l, hcli, hv, hd, hs, hid⟩
+  unfold clientIDFromCtx at hr
+  split at hr
+  · next hp =>
+    split at hr
+    · cases hr
+    · next p hpath =>
+      split at hr
+      · cases hr
+      · next id' hid' =>
+        split at hr
+        · next hne' =>
+          cases hr
+          obtain ⟨l, hv, hs, hc, hl⟩ := C16_path_shape p id hid' hne
+          exact Or.inl ⟨hp, p, l, hpath, hv, hs, hc, hl⟩
+        · exact Or.inr (sni (Or.inl hp) hr)
+  · next hp => exact Or.inr (sni (Or.inr (Or.inl hp)) hr)
+  · next hp => exact Or.inr (sni (Or.inr (Or.inr hp)) hr)
+  · cases hr; exact absurd rfl hne
+
+/-- Every ClientID handed on is itself a valid host-name label and is in
+lower case (lower-casing is idempotent). -/
+theorem C16_result_valid (c : Ctx) (id : Bytes) (hr : clientIDFromCtx c = .ok id) (hne : id ≠ []) :
+    validLabel id = true ∧ lower id = id := by
+  rcases C16_ctx_shape c id hr hne with ⟨_, _, l, _, hv, _, _, hid⟩ | ⟨_, _, _, l, _, hv, _, _, hid⟩
+  · subst hid; exact ⟨by rw [validLabel_lower]; exact hv, lower_idem l⟩
+  · subst hid; exact ⟨by rw [validLabel_lower]; exact hv, lower_idem l⟩
+
+/-- The model satisfies the spec monitor that the driver evaluates on the implementation's
+output, for every request context: the monitor never raises an alarm on
+behaviour that agrees with the model. -/
+theorem C16_model_meets_spec (c : Ctx) : specOK c (clientIDFromCtx c) = true := by
+  have hsni := sni_meets c.hostSrvName c.strict (clientServerName c)
+  rw [← fromSNI_eq] at hsni
+  rcases c with ⟨proto, path, httpTLS, hostHdr, hostSplit, connSNI, host, strict⟩
+  cases proto
+  case udp => simp [specOK, clientIDFromCtx, sniCapable]
+  case tcp => simp [specOK, clientIDFromCtx, sniCapable]
+  case dnscrypt => simp [specOK, clientIDFromCtx, sniCapable]
+  case tls =>
+    simp only [specOK, clientIDFromCtx, sniCapable]
+    simp only at hsni
+    split at hsni
+    · next id heq =>
+      rw [heq]
+      by_cases hid : id = []
+      · simp [hid] at hsni ⊢; exact hsni
+      · simp [hid] at hsni ⊢; exact hsni
+    · next e heq => rw [heq]; simp; exact hsni
+  case quic =>
+    simp only [specOK, clientIDFromCtx, sniCapable]
+    simp only at hsni
+    split at hsni
+    · next id heq =>
+      rw [heq]
+      by_cases hid : id = []
+      · simp [hid] at hsni ⊢; exact hsni
+      · simp [hid] at hsni ⊢; exact hsni
+    · next e heq => rw [heq]; simp; exact hsni
+  case https =>
+    simp only [specOK, clientIDFromCtx, sniCapable]
+    cases path with
+    | none => simp
+    | some p =>
+      simp only [path_char]
+      cases hpl : pathLabel p with
+      | some l =>
+        simp only
+        by_cases hsl : slash ∈ l
+        · simp [hsl, not_valid_of_slash l hsl]
+        · by_cases hv : validLabel l = true
+          · have := lower_ne_nil (validLabel_ne_nil hv)
+            simp [hsl, hv, this, idOf]
+          · simp [hsl, hv]
+      | none =>
+        simp only
+        by_cases hq : pathClean p = slash :: dnsQuery ∨ pathClean p = dnsQuery
+        · simp only [hq, if_true, ne_eq, not_true_eq_false, if_false]
+          simp only at hsni
+          split at hsni
+          · next id heq =>
+            rw [heq]
+            by_cases hid : id = []
+            · simp [hid] at hsni ⊢; exact hsni
+            · simp [hid] at hsni ⊢; exact hsni
+          · next e heq => rw [heq]; simp; exact Or.inr hsni
+        · simp only [hq, if_false]
+          simp at hq ⊢
+          exact Or.inl hq
+
+-- Non-vacuity: concrete requests that yield an id from the path and from the SNI
+-- ("Cli-1" = [67,108,105,45,49]; "example.org" as bytes below).
+def exHost : Bytes := [101,120,97,109,112,108,101,46,111,114,103]
+example : clientIDFromPath (slash :: dnsQuery ++ slash :: [67,108,105,45,49]) = .ok [99,108,105,45,49] := by decide
+example : clientIDFromServerName exHost ([67,108,105] ++ dot :: exHost) true = .ok [99,108,105] := by decide
+-- a.b.example.org with strict checking
+example : clientIDFromServerName exHost ([97,46,98] ++ dot :: exHost) true = .error .sniMismatch := by decide
+-- suffix look-alike xexample.org, not strict: nobody
+example : clientIDFromServerName exHost (120 :: exHost) false = .ok [] := by decide
+-- /dns-query/a_b : invalid label fails
+example : clientIDFromPath (slash :: dnsQuery ++ slash :: [97,95,98]) = .error .badLabel := by decide
 
 end AGH.C16
